@@ -561,7 +561,17 @@ impl Swift {
         match e {
             RustEnum::Unit(shared) => {
                 for v in &shared.variants {
-                    let variant_name = v.shared().id.original.to_camel_case();
+                    let mut variant_name = v.shared().id.original.to_camel_case();
+                    if variant_name
+                        .chars()
+                        .next()
+                        .map(|c| c.is_ascii_digit())
+                        .unwrap_or(false)
+                    {
+                        // If the name starts with a digit just add an underscore
+                        // to the front and make it valid (as for algebraic enums below)
+                        variant_name = format!("_{}", variant_name);
+                    }
 
                     self.write_comments(w, 1, &v.shared().comments)?;
                     if v.shared().id.renamed == variant_name {
